@@ -1,14 +1,14 @@
 """C15  Shared package store is safe under concurrent projects.
 
 (A) TLC checks specs/SharedStore.tla exhaustively: the repaired protocol (Weak = {}) satisfies every
-    P invariant; the protocol as the code implements it (Weak = the weaknesses found present, see
-    below) satisfies every P invariant that is not the direct statement of one of those weaknesses;
+    P invariant; the protocol as the code implements it (Weak = CODE_WEAK = {LinkAfterUnlock}, the
+    KNOWN finding S2) satisfies every P invariant that is not the direct statement of that weakness;
     coverage + reachability configs for vacuity.
     For every weakness w of the module (LinkAfterUnlock, LostRaceUnregistered, GcNeedsRepoJson,
-    RepoCreateWindow, InspectRace) TLC searches the model of the current code for a shortest
-    counterexample of the P invariant that w breaks; the counterexample is replayed against the
-    real code (B); only if the real execution violates P, the violation is reported (stable
-    signature) and w is taken as present in the code.
+    RepoCreateWindow, UnlockBeforeFlush, InspectRace) TLC searches the weakened model for a
+    shortest counterexample of the P invariant that w breaks; the counterexample is replayed
+    against the real code (B); if the real execution violates P, the violation is reported under
+    its stable signature (for the repaired weaknesses that is a regression).
 (B) Real bob.share.LocalShare objects (one per logical project) driven through the real
     LocalBuilder._useSharedPackage / _installSharedPackage (workspace symlink bookkeeping) run as
     actors under vf.sched + vf.fsint installed on bob.share and bob.builder.  The driver follows
@@ -48,6 +48,10 @@ NOQUOTA = 99
 NW = max(1, int(os.environ.get("VF_WORKERS", "16") or 16))     # worker processes / TLC workers (default 16)
 ALL_WEAK = ["LinkAfterUnlock", "LostRaceUnregistered", "GcNeedsRepoJson", "RepoCreateWindow", "UnlockBeforeFlush",
             "InspectRace"]
+# the protocol of the code as it is now = repaired protocol + these weaknesses (S2: KNOWN finding, needs a protocol
+# change).  The other members of ALL_WEAK were repaired in /repo (b16c9a4 f0265a1 6b36430 73d2575 81dbecb); their
+# shortest counterexamples are still replayed as targeted regression tests and must come out clean.
+CODE_WEAK = ["LinkAfterUnlock"]
 # weakness -> [(invariant it breaks (config SharedStore_weak_<inv>.cfg), signature that confirms it on the real
 #               code, weaknesses switched off in the model that produces the counterexample)]
 WEAK_CEX = {
@@ -1594,17 +1598,19 @@ def main():
 
         def cex_run(job):
             w, inv, sig, off = job
-            cfg = derive_cfg("SharedStore_weak_%s.cfg" % inv, [x for x in ALL_WEAK if x not in off], work,
-                             name="cex-%s.cfg" % inv)
+            # weakness still in the code: counterexample of the model of the code; repaired weakness: counterexample of
+            # the model of the code as it was before the repairs (replayed as a regression test)
+            weak = CODE_WEAK if w in CODE_WEAK else [x for x in ALL_WEAK if x not in off]
+            cfg = derive_cfg("SharedStore_weak_%s.cfg" % inv, weak, work, name="cex-%s.cfg" % inv)
             return job, tlc.run("SharedStore", cfg, workers=2, timeout=3000)
         with ThreadPoolExecutor(max(1, NW // 4)) as ex:
             cex_results = list(ex.map(cex_run, jobs))
         present = set()
         cex_report = {}
         for (w, inv, sig, off), res in cex_results:
-            rep.add_tlc(res, "current-code model, %s" % inv)
+            rep.add_tlc(res, "%s model, %s" % ("current-code" if w in CODE_WEAK else "pre-repair", inv))
             if res.violated != "Cex" + inv or not res.printed:
-                raise tlc.TlcError("vacuity: the model of the current code does not violate %s" % inv)
+                raise tlc.TlcError("vacuity: the weakened model does not violate %s" % inv)
             hists = dedupe([p["hist"] for p in res.printed if p.get("cex") == inv])
             hists.sort(key=len)
             hists = hists[:3]
@@ -1626,13 +1632,11 @@ def main():
                         note(s, d)
         rep.extra["weaknesses_confirmed_on_code"] = sorted(present)
         rep.extra["weakness_counterexamples"] = cex_report
-        codeweak = [w for w in ALL_WEAK if w in present]
-        # the module's ASSUMEs: a repaired creation presupposes flush-before-unlock, a repaired lost race presupposes both
-        if "UnlockBeforeFlush" in codeweak and "RepoCreateWindow" not in codeweak:
-            codeweak.append("RepoCreateWindow")
-        if "RepoCreateWindow" in codeweak and "LostRaceUnregistered" not in codeweak:
-            codeweak.append("LostRaceUnregistered")
-        codeweak = [w for w in ALL_WEAK if w in codeweak]
+        codeweak = list(CODE_WEAK)
+        for w in CODE_WEAK:
+            if w not in present:
+                rep.model_drift("weakness %s of the code model: its counterexample does not violate P on the real code" % w)
+        rep.extra["repaired_weaknesses_reappeared"] = sorted(present - set(CODE_WEAK))
         broken = set()
         for w in codeweak:
             broken |= WEAK_BREAKS[w]
